@@ -107,9 +107,8 @@ Definition astep (own : maddr) (m : mode) (e : aevent) : mode * list maddr :=
   | AVotes2 v1 v2 =>
       (* Core::cleanup_done_queries goes through the finished lookups one after the other; the address that changed last is
          the one that is pinged *)
-      let '(m1, p1) := mstep m (MLookupDone (best_vote v1)) in
-      let '(m2, p2) := mstep m1 (MLookupDone (best_vote v2)) in
-      match (match p2 with Some a => Some a | None => p1 end) with
+      let '(m2, p) := last_change m [best_vote v1; best_vote v2] in
+      match p with
       | Some a => if maddr_eqb a own then (fst (mstep m2 (MPingFrom own)), []) else (m2, [a])
       | None => (m2, [])
       end
